@@ -143,6 +143,11 @@ class DirStateWorkingTree(InventoryWorkingTree):
                 # too, but only breezy knows whether to use the
                 # accessible or inaccessible variant on this platform.
                 dirname, basename = os.path.split(f)
+                if dirname and self.path2id(dirname) is None:
+                    # the dirstate only notices a missing parent when no row at
+                    # all exists for it; a parent that is still in the basis
+                    # tree but no longer in the working tree would be accepted
+                    raise errors.NotVersionedError(dirname, self)
                 norm_name, can_access = osutils.normalized_filename(basename)
                 if norm_name != basename:
                     if can_access:
